@@ -1193,8 +1193,35 @@ pub fn check_c11(scn: &LoopScn, r: &RunResult, out: &LoopOut) -> Vec<Violation> 
     let reads: Vec<u64> = r.events.iter().filter_map(raw_of).collect();
     for w in reads.windows(3) {
         let (a, b, c) = (w[0], w[1], w[2]);
-        let d = |x: u64, y: u64| divan::verif::tsc_duration(x, y, f);
+        // The real conversion, called directly; a panic inside it (overflow
+        // checks are on in this build) is a finding, not a harness crash.
+        let panicked = std::cell::Cell::new(None::<(u64, u64)>);
+        let d = |x: u64, y: u64| {
+            std::panic::catch_unwind(|| divan::verif::tsc_duration(x, y, f)).unwrap_or_else(|_| {
+                panicked.set(Some((x, y)));
+                u128::MAX
+            })
+        };
+        let report_panic = |vs: &mut Vec<Violation>| {
+            if let Some((x, y)) = panicked.get() {
+                vs.push(v(
+                    "conversion_panic",
+                    format!(
+                        "duration_since({y}, {x}) at {f} Hz panicked: {}",
+                        crate::common::take_last_panic().unwrap_or_default()
+                    ),
+                ));
+                true
+            } else {
+                false
+            }
+        };
         for (x, y) in [(a, b), (b, a), (a, c), (b, c)] {
+            let got = d(x, y);
+            if report_panic(&mut vs) {
+                return vs;
+            }
+            let _ = got;
             if d(x, y) != conv(x, y, f) {
                 vs.push(v("conversion", format!("duration_since({y}, {x}) at {f} Hz = {} ps, expected {} ps", d(x, y), conv(x, y, f))));
                 return vs;
